@@ -149,13 +149,13 @@ pub fn mixed_machine() -> Machine {
         // our own requests to the peer at 0x34 and the peer's answers, carrying data that differ
         // from our own state (anything "learned" from a response must not leak into our answers)
         enc(ReqGetVersion { q: 0 }, 0x34),
-        Event::Process(forge_response(0x34, a, 0, 0x04, 0, &[0x01, 0xF1, 0xF2, 0xF0, 0x00])),
+        Event::Process(forge_response(0x34, a, 5, 0x04, 0, &[0x01, 0xF1, 0xF2, 0xF0, 0x00])),
         enc(ReqGetVendor { sel: 0 }, 0x34),
-        Event::Process(forge_response(0x34, a, 0, 0x06, 0, &[0x01, 0x00, 0xAB, 0xCD, 0x00, 0x07])),
+        Event::Process(forge_response(0x34, a, 5, 0x06, 0, &[0x01, 0x00, 0xAB, 0xCD, 0x00, 0x07])),
         enc(ReqGetUuid, 0x34),
-        Event::Process(forge_response(0x34, a, 0, 0x03, 0, &[0xEE; 16])),
+        Event::Process(forge_response(0x34, a, 5, 0x03, 0, &[0xEE; 16])),
         enc(ReqGetMsgTypes, 0x34),
-        Event::Process(forge_response(0x34, a, 0, 0x05, 0, &[0x02, 0x01, 0x02])),
+        Event::Process(forge_response(0x34, a, 5, 0x05, 0, &[0x02, 0x01, 0x02])),
     ];
     Machine { cfg, init: vec![], alphabet }
 }
@@ -186,6 +186,44 @@ pub fn runseq_for(run: &mut Run, prop: &'static str, filter: &Filter) {
     runseq(run, prop, "five requesters", &cfg, &ev[..5], &[1, 3], if run.tier.thorough() { 6 } else { 5 }, filter);
     runseq(run, prop, "mixed events, 8-bit boundary", &cfg, &ev, &[1, 255, 256, 257], if run.tier.thorough() { 3 } else { 2 }, filter);
     thrash_for(run, prop, filter);
+    iid_walks_for(run, prop, filter);
+}
+
+/// Instance-id walks: runs of 1..=128 requests from one requester whose instance
+/// ids follow an arithmetic pattern (ascending, descending, steps of 2, 3, 7,
+/// 16, from 0 or 31); the last request and the probes are judged.
+pub fn iid_walks_for(run: &mut Run, prop: &'static str, filter: &Filter) {
+    let cfg = pair_cfg();
+    let probe_pkts = probes(&cfg);
+    run.sweep("instance-id walks: 12 arithmetic patterns x run lengths 1..=128 x 2 commands, last request judged", 12 * 128 * 2, |acc, i| {
+        let mut ix = Ix(i);
+        let cmd_set = ix.take(2) == 1;
+        let len = ix.take(128) as usize + 1;
+        let step = [1u8, 31, 2, 3, 7, 16][ix.take(6) as usize];
+        let start = [0u8, 31][ix.take(2) as usize];
+        let mk = |k: usize| {
+            let iid = start.wrapping_add(step.wrapping_mul(k as u8)) & 0x1F;
+            if cmd_set {
+                forge_request(SRC, DST, iid, false, 0x01, &[0, 0x20 + (k % 64) as u8])
+            } else {
+                forge_request(SRC, DST, iid, false, 0x02, &[])
+            }
+        };
+        let hist: Vec<Event> = (0..len - 1).map(|k| Event::Process(mk(k))).collect();
+        let m = Machine { cfg: cfg.clone(), init: hist, alphabet: vec![Event::Process(mk(len - 1))] };
+        let owned = Owned::new(&cfg);
+        let node = m.eval(&owned, &probe_pkts, &[0]);
+        acc.evals += 1;
+        acc.trans += node.calls;
+        acc.validated += 1;
+        acc.state(node.key ^ i);
+        acc.nontrivial(Fnv::default().u64(0x11D).u64(i).finish());
+        let mut h = m.init.clone();
+        h.push(m.alphabet[0].clone());
+        for df in node.diffs.iter().filter(|df| filter(df, &h)) {
+            acc.violation(h.len() as u64, "instance-id-walk", format!("after {} request(s): {}", h.len(), df.text), || json!({"prop": prop, "check": "history", "cfg": m.cfg, "init": m.init, "history": [m.alphabet[0].clone()]}));
+        }
+    });
 }
 
 /// THRASH: the access pattern that defeats caches -- a key used k times, then N
